@@ -8,6 +8,7 @@ quiescence, every port with an expression holds the coerced value of its express
 Coq specification on what the implementation reports.
 """
 import json
+import random
 import os
 import subprocess
 import sys
@@ -392,10 +393,21 @@ def gen_rich(rng):
             v = c[2]
             if v is not None:
                 c[2] = bool(v) if k.endswith('bool') else (int(v) if k.endswith('int') else float(v))
-    return {'ports': ports, 'script': script, 'failed_restore_first': rng.random() < 0.1}
+    failed_restore_first = rng.random() < 0.1
+    # some of the changes of a harness port are seen by a pass during which another task adds an unrelated port to the hub
+    # (drawn from a generator of its own, seeded by the script)
+    rng2 = random.Random(repr(script))
+    for c in script:
+        if c[0] == 'set' and ports[int(c[1][1:])]['kind'].startswith('h') and rng2.random() < 0.25:
+            c[0] = 'set+add-during-read'
+    return {'ports': ports, 'script': script, 'failed_restore_first': failed_restore_first}
 
 
 RICH_CORPUS = [
+    # the registry of ports changes (an unrelated port is added by another task) while the pass that sees a change is suspended
+    # in a driver read: the pass must go on and the change must reach the expressions that read the port
+    {'ports': [{'id': 'p0', 'kind': 'hint', 'value': 1}, {'id': 'p1', 'kind': 'hint', 'value': 0}, {'id': 'p2', 'kind': 'vint', 'value': None}],
+     'script': [['expr', 'p2', ('call', 'MUL', [('pv', 'p0'), ('lit', '10', 10)])], ['set+add-during-read', 'p0', 2]]},
     # unavailability that comes from the literal, through a lazily evaluated branch
     {'ports': [{'id': 'p0', 'kind': 'hbool', 'value': True}, {'id': 'p1', 'kind': 'hnum', 'value': 5.0}, {'id': 'p2', 'kind': 'vnum', 'value': None}],
      'script': [['expr', 'p2', ('call', 'IF', [('pv', 'p0'), ('pv', 'p1'), ('lit', 'unavailable', None)])], ['set', 'p0', False]]},
@@ -425,7 +437,7 @@ def run_rich_worker(scenarios):
                 script.append([c[0], c[1], c02.text_of(c[2])])
             elif c[0] == 'expr-in-handler':
                 script.append([c[0], c[1], c02.text_of(c[2]), c[3], w.enc(c[4])])
-            elif c[0] in ('set', 'readd'):
+            elif c[0] in ('set', 'readd', 'set+add-during-read'):
                 script.append([c[0], c[1], w.enc(c[2])])
             elif c[0] == 'set+fault':
                 script.append([c[0], c[1], w.enc(c[2]), c[3], c[4]])
@@ -492,6 +504,7 @@ def check_rich(ctx, res, scenarios, tag):
             if (tw or None) != (tws.get(pid) or None):
                 res['tie_failures'].append({'scenario': ws, 'note': 'typed stream: port %s write transform %r, assigned %r' % (pid, tw, tws.get(pid))})
         d['typed_with_write_transform'] = d.get('typed_with_write_transform', 0) + sum(1 for q in trees if tws.get(q))
+        d['typed_port_added_while_a_pass_is_in_a_read'] = d.get('typed_port_added_while_a_pass_is_in_a_read', 0) + sum(1 for c in sc['script'] if c[0] == 'set+add-during-read')
         d['typed_port_removed_and_added_again'] = d.get('typed_port_removed_and_added_again', 0) + sum(1 for c in sc['script'] if c[0] == 'readd')
         ex = coq.lst(['(%s, %s, %s)' % (coq.string(q), c02.coq_expr(t),
                                        'None' if not tws.get(q) else '(Some %s)' % c02.coq_expr(RICH_TWRITES[tws[q]]))
